@@ -386,6 +386,12 @@ impl TransactionCoordinator {
     /// Begin a new transaction.
     /// Returns a [TransactionHandle] to the thread that requested the begin operation.
     pub fn begin(&self) -> TransactionResult<TransactionHandle> {
+        // The id, the snapshot and the entry in the table are one step under the table's
+        // lock. Otherwise another thread can take its snapshot after this transaction got its
+        // id but before it is listed as active: once any younger transaction has committed,
+        // that snapshot treats this one as committed and reads its rows while it is running.
+        let mut txs = self.transactions.write();
+
         // Atomically get and increment the transaction ID in PageZero
         let txid = {
             let mut pager = self.pager.write();
@@ -394,17 +400,25 @@ impl TransactionCoordinator {
             current
         };
 
-        // Create snapshot
-        let snapshot = self.snapshot(txid)?;
+        // Create snapshot (as [Self::snapshot] does, from the table we hold)
+        let ids_in = |state: TransactionState| -> HashSet<TransactionId> {
+            txs.iter()
+                .filter(|(_, entry)| entry.state() == state)
+                .map(|(id, _)| *id)
+                .collect()
+        };
+        let active = ids_in(TransactionState::Active);
+        let aborted = ids_in(TransactionState::Aborted);
+        let xmin = active.iter().min().copied().unwrap_or(txid);
+        let xmax = Some(self.get_last_committed());
+        let snapshot = Snapshot::new(txid, xmin, xmax, active, aborted);
 
         let start_ts = self.commit_counter.load(Ordering::SeqCst);
 
         // Insert new transaction entry
-        {
-            let mut txs = self.transactions.write();
-            let entry = TransactionMetadata::new(txid, snapshot.clone(), start_ts);
-            txs.insert(txid, entry);
-        }
+        let entry = TransactionMetadata::new(txid, snapshot.clone(), start_ts);
+        txs.insert(txid, entry);
+        drop(txs);
 
         Ok(TransactionHandle {
             id: txid,
